@@ -26,14 +26,40 @@ class Task:
 
 
 _TASKS = []
+_MARK_DIR = None
+
+
+class TaskTimeout(BaseException):
+    """wall-clock limit of one task (VERIF_TASK_TIMEOUT seconds, default 300): the task is UNDECIDED, never a violation"""
+
+
+def _task_limit():
+    return int(os.environ.get("VERIF_TASK_TIMEOUT", "300"))
 
 
 def _run_one(i):
+    import signal, threading
     from vc.core import explore
     t = _TASKS[i]
     t0 = time.time()
     out = dict(task=t.name, kind=t.kind, functions=t.functions, replay=t.replay, note=t.note, bound=t.bound,
                obligations=[], paths=0, undecided=[], crash=None, assumptions=[])
+    limit = _task_limit()
+
+    def on_alarm(signum, frame):
+        raise TaskTimeout("".join(traceback.format_stack(frame)[-6:]))
+    hard = None
+    if threading.current_thread() is threading.main_thread():
+        signal.signal(signal.SIGALRM, on_alarm)
+        signal.alarm(limit)
+        if _MARK_DIR:
+            # a task stuck inside a C call never sees the alarm: leave a marker and end the worker (the pool replaces it)
+            def die():
+                open(os.path.join(_MARK_DIR, "%d.timeout" % i), "w").write(t.name)
+                os._exit(1)
+            hard = threading.Timer(limit + 120, die)
+            hard.daemon = True
+            hard.start()
     try:
         import contextlib, io
         with contextlib.redirect_stdout(io.StringIO()):      # rockit has debug prints on some paths
@@ -49,8 +75,15 @@ def _run_one(i):
     except BaseException as e:                     # noqa - reported as checker crash
         if type(e).__name__ == "Undecided":
             out["undecided"].append(str(e))
+        elif isinstance(e, TaskTimeout):
+            out["undecided"].append("task exceeded its wall-clock limit of %d s; it was executing: %s" % (limit, str(e)[-600:]))
         else:
             out["crash"] = "".join(traceback.format_exception(type(e), e, e.__traceback__))[-3000:]
+    finally:
+        if threading.current_thread() is threading.main_thread():
+            signal.alarm(0)
+        if hard is not None:
+            hard.cancel()
     out["wall_s"] = round(time.time() - t0, 3)
     return out
 
@@ -61,9 +94,30 @@ def run_tasks(tasks, procs=None):
     procs = procs or int(os.environ.get("VERIF_PROCS", "0")) or min(16, os.cpu_count() or 1)
     if procs <= 1 or len(_TASKS) <= 1:
         return [_run_one(i) for i in range(len(_TASKS))]
+    global _MARK_DIR
+    import tempfile, shutil
+    _MARK_DIR = tempfile.mkdtemp(prefix="verif-tasks.")
     ctx = multiprocessing.get_context("fork")
-    with ctx.Pool(min(procs, len(_TASKS)), maxtasksperchild=8) as pool:
-        return pool.map(_run_one, range(len(_TASKS)), chunksize=1)
+    try:
+        with ctx.Pool(min(procs, len(_TASKS)), maxtasksperchild=8) as pool:
+            pending = {i: pool.apply_async(_run_one, (i,)) for i in range(len(_TASKS))}
+            results = {}
+            while pending:
+                for i in list(pending):
+                    if pending[i].ready():
+                        results[i] = pending.pop(i).get()
+                    elif os.path.exists(os.path.join(_MARK_DIR, "%d.timeout" % i)):
+                        pending.pop(i)
+                        t = _TASKS[i]
+                        results[i] = dict(task=t.name, kind=t.kind, functions=t.functions, replay=t.replay, note=t.note, bound=t.bound, obligations=[], paths=0,
+                                          undecided=["task exceeded its wall-clock limit of %d s inside a native call; its worker was ended" % _task_limit()],
+                                          crash=None, assumptions=[], wall_s=float(_task_limit() + 120))
+                if pending:
+                    time.sleep(0.05)
+            return [results[i] for i in range(len(_TASKS))]
+    finally:
+        shutil.rmtree(_MARK_DIR, ignore_errors=True)
+        _MARK_DIR = None
 
 
 # ---------------------------------------------------------------------------------------
